@@ -519,9 +519,10 @@ def packet_sequence(g, n, ex9, ex10, self_delimiting=True):
             for _ in range(r.choice([1, 1, 2, 3])):
                 known = list(e.tm.keys())
                 if r.random() < 0.45 or not known:
-                    t = r.choice(e.ids)
-                    e.new_def(t, kind="data", unknown=r.random() < 0.3)
-                    sets.append(e.tmpl_set([t]))
+                    ts = r.sample(e.ids, r.choice([1, 1, 2, 3]))      # one template set may carry several templates
+                    for t in ts:
+                        e.new_def(t, kind="data", unknown=r.random() < 0.3)
+                    sets.append(e.tmpl_set(ts))
                 else:
                     sets.append(e.data(r.choice(known)))
             pks.append((9 if proto == "v9" else 10, e.packet(sets)))
